@@ -373,6 +373,46 @@ def run_reused(block, ctx):
     ctx.sample(block[0])
 
 
+# -- every single event of the range: one query per period ---------------------------------------------------
+
+def run_every_event(spec, ctx):
+    """spec = (finder, target, j_from, j_to): queries one mean period apart, so that every event of the
+    stretch answers at least one query: no exception, never backwards, no event skipped (consecutive
+    answers at most 2.5 periods apart)."""
+    fn, target, j0, j1 = spec
+    per = FINDERS[fn][1]
+    q = j0
+    prev = None
+    n_ev = 0
+    while q <= j1:
+        ctx.evals += 1
+        case = {"finder": fn, "target": target, "query": q, "year": fast().date(int(math.floor(q + 0.5)))[0],
+                "leap_day": False, "julian_century": False}
+        try:
+            re, _ = call(fn, target, q)
+        except Exception as ex:
+            ctx.viol(case, "%s(%r, %r) raised %r" % (fn, q, target, ex), site="finder_exception")
+            q += per
+            continue
+        if prev is not None:
+            if re - prev < -1e-6:
+                ctx.viol(case, "%s %r moves backwards by %r d between queries one period apart" % (fn, target, re - prev),
+                         dev=prev - re, site="backwards")
+            elif re - prev > 1e-6:
+                n_ev += 1
+                g = (re - prev) / per
+                if g > 2.5:
+                    ctx.viol(case, "%s %r: answers to queries one period apart are %.3f periods apart (an event is "
+                             "skipped)" % (fn, target, g), dev=g, site="gap")
+        prev = re
+        q += per
+    ctx.nt_count += n_ev
+    ctx.count("distinct_events", n_ev)
+    ctx.outcome((fn, target, n_ev))
+    ctx.obs(spec, n_ev)
+    ctx.sample({"finder": fn, "target": target, "from_jde": j0, "to_jde": j1})
+
+
 def clauses(tier):
     if tier == "thorough":
         pos = []
@@ -410,7 +450,15 @@ def clauses(tier):
     reused = [{"finder": fn, "target": t, "history": [list(d) for d in h]}
               for fn, (targets, per) in FINDERS.items() for t in targets
               for n in ((2, 3) if tier == "thorough" else (2,)) for h in itertools.permutations(RE_DATES, n)]
+    every = []
+    ja, jb = Epoch(-2000, 2, 1).jde(), Epoch(3999, 11, 30).jde()
+    for fn, (targets, per) in FINDERS.items():
+        for t in targets:
+            seg = (jb - ja) / 16
+            for k in range(16):
+                every.append((fn, t, ja + k * seg, ja + (k + 1) * seg))
     return [
+        Clause("every_event", every, run_every_event, replay_sweep, floor=100000),
         Clause("year_ends", chunks(ye, 64), run_year_ends, lambda c: [m for _, m, _ in check_year_end(c)],
                floor=10000),
         Clause("reused_epoch", chunks(reused, 16), run_reused, check_reused_epoch, floor=200, shape="H"),
